@@ -1271,3 +1271,69 @@ def r_rectangles_taken_after_the_last_intersection(ck, P, rid='C03-R18'):
                 ck.violation(R, f.name, 'rectangle list taken before an intersection', '%s takes the rectangle list of its local region (%s) and intersects the region afterwards (%s): the list that is then walked is the one from before the intersection - pixels outside the destination clip are filled, or a freed array is read' % (f.name, c.loc(), hit.loc()), c.loc())
     if n == 0:
         raise AnalysisBroken('%s: no exported function takes the rectangles of a local region it intersects' % rid)
+
+
+def r_fill_returns_true_only_after_drawing(ck, P, rid='C19-R18'):
+    """Must-pass-through: pixman_image_fill_boxes answers TRUE for 'the boxes have been drawn as compositing the colour would draw them'.
+    Every path to that answer has set up one of the two ways of drawing - the region of the direct fill or the solid image of the general
+    route.  A shortcut that decides 'this colour changes nothing' from the colour packed to 8 bits per channel returns without either,
+    although destinations with wider channels do change."""
+    R = ck.rule(rid, 'in pixman_image_fill_boxes every path to a return of a non-zero value passes the construction of the fill region (pixman_region32_init_rects) or of the solid image (pixman_image_create_solid_fill): no verdict "nothing to draw" is reached from the operator and the colour alone', floor=1)
+    fs = [f for f in P.functions() if f.name == 'pixman_image_fill_boxes']
+    if not fs:
+        raise AnalysisBroken('%s: pixman_image_fill_boxes not found' % rid)
+    n = 0
+    for f in fs:
+        setup = {c.bb.id for c in f.calls() if isinstance(c.callee, str) and c.callee in ('pixman_region32_init_rects', 'pixman_image_create_solid_fill')}
+        if not setup:
+            raise AnalysisBroken('%s: neither way of drawing found in pixman_image_fill_boxes' % rid)
+        rets = f.rets()
+        rv = f.v(rets[0].a[0]) if len(rets) == 1 and rets[0].a and rets[0].a[0][0] == 'v' else None
+        if rv is None or rv.op != 'phi':
+            raise AnalysisBroken('%s: unexpected return shape of pixman_image_fill_boxes' % rid)
+        for a, bb in zip(rv.a, rv.d['bb']):
+            if a[0] == 'c' and int(a[1]) == 0:
+                continue
+            n += 1; ck.saw(f)
+            # is bb reachable from the entry without passing a setup block?
+            seen = set(); work = [0]; hit = False
+            while work:
+                b = work.pop()
+                if b in seen or b in setup:
+                    continue
+                seen.add(b)
+                if b == bb:
+                    hit = True; break
+                work.extend(f.blocks[b].succ)
+            where = '%s: non-zero return from block %d' % (f.name, bb)
+            if not hit:
+                ck.ok(R, where, 'after one of the drawing routes was set up')
+            else:
+                ck.violation(R, f.name, 'success without drawing', '%s can return success from the block ending at %s without having built either the fill region or the solid image: whatever test leads there decides that nothing needs drawing before any drawing route has seen the request, e.g. from the colour rounded to 8 bits per channel, which is not zero for a 10-bit or float destination' % (f.name, f.blocks[bb].term.loc()), f.blocks[bb].term.loc())
+    if n == 0:
+        raise AnalysisBroken('%s: no success return found in pixman_image_fill_boxes' % rid)
+
+
+def r_fill_rows_are_separate(ck, P, rid='C03-R20'):
+    """T-DEP: the C fill routines write `width` pixels in each of `height` rows that lie `stride` apart; what is between the end of a row
+    and the start of the next (padding, or other pixels of a wider bitmap) is not theirs.  The number of pixels written in one run is the
+    width parameter: never a product with the height or the stride."""
+    R = ck.rule(rid, 'in the C fill routines (pixman_fill8 / 16 / 32 and the 1-bpp line filler) no multiplication has the height parameter as a factor: the rows are filled one by one, `width` pixels each; a run of stride * height pixels "because the rows are contiguous" overwrites the padding at the end of every row whenever the stride rounds the width up (an odd width at 16 bpp)', floor=3)
+    n = 0
+    for f in P.functions():
+        if f.unit.name != 'pixman-fast-path.c' or not f.name.startswith('pixman_fill'):
+            continue
+        hs = [i for i, (nm, ty) in enumerate(f.params) if nm == 'height']
+        if not hs:
+            continue
+        n += 1; ck.saw(f)
+        bad = None
+        for x in f.insts():
+            if x.op in ('mul', 'shl') and any(('arg', hs[0]) in common.value_arg_roots(f, a) for a in x.a if a and a[0] in ('v', 'a')):
+                bad = x
+        if bad is None:
+            ck.ok(R, '%s: height only counts rows' % f.name)
+        else:
+            ck.violation(R, f.name, 'height multiplied into a run length', '%s multiplies by its height parameter (%s): it fills several rows as one run, so whatever lies between the end of one row and the start of the next - the row padding, or the neighbouring pixels when `bits` is a window into a wider bitmap - is overwritten' % (f.name, bad.loc()), bad.loc())
+    if n == 0:
+        raise AnalysisBroken('%s: no C fill routine with a height parameter found' % rid)
